@@ -1,5 +1,5 @@
 (* Props/C01.v — lossless packet round trip in both directions, every kind, both modes. *)
-Require Import Coq.Strings.String.
+Require Import Coq.Strings.String Net.Concrete.
 Require Import Base.Bytes Wire.Layout Wire.Customs Wire.LayoutProofs Wire.CustomProofs Wire.Packet Wire.PacketProofs.
 Require Import Gen.Packets Net.Frame.
 Local Open Scope N_scope.
@@ -39,6 +39,13 @@ Proof. exact dec_enc_struct. Qed.
    round-trip on their explicit domains *)
 Theorem c01_customs_roundtrip : forall c v b, cindom c v = true -> cenc c v = Ok b -> cdec c b = Ok v.
 Proof. exact c_roundtrip. Qed.
+
+(* the codec of the source keeps no state between calls: its struct has the size mode as its only field (regenerated
+   field names; the codec model is a pure function of the mode), and a connection struct has no field besides those
+   the connection models carry *)
+Theorem c01_codec_is_stateless_like_the_model : state_tied = true.
+Proof. vm_compute. reflexivity. Qed.
+
 
 (* non-vacuity *)
 Example c01_example_domain_nonempty :
